@@ -103,9 +103,6 @@ func (p *parser) parseBinOp(left MetricExpr, minPrecedence int) (MetricExpr, err
 			if v, ok := left.(*LiteralExpr); ok {
 				return nil, errors.Errorf("unexpected left scalar %v in a logical operation %s", v.Value, op)
 			}
-			if v, ok := right.(*LiteralExpr); ok {
-				return nil, errors.Errorf("unexpected right scalar %v in a logical operation %s", v.Value, op)
-			}
 		}
 
 		for {
@@ -122,6 +119,14 @@ func (p *parser) parseBinOp(left MetricExpr, minPrecedence int) (MetricExpr, err
 			right, err = p.parseBinOp(right, nextPrecedence)
 			if err != nil {
 				return nil, err
+			}
+		}
+
+		// Check the right operand once it is complete:
+		// in "vector(1) or 2 * vector(3)" it is "2 * vector(3)", not the scalar 2.
+		if op.IsLogic() {
+			if v, ok := right.(*LiteralExpr); ok {
+				return nil, errors.Errorf("unexpected right scalar %v in a logical operation %s", v.Value, op)
 			}
 		}
 
